@@ -63,12 +63,7 @@ def macroClass (env : Env) (s : State) (m : MacroCall) : String :=
 /-- spec column: should the macro pass, and (when it should pass, or for a checking macro) the
     abstract tree it must leave. A macro that is to panic may stop before acting. -/
 def macroSpecCol (env : Env) (s : State) (m : MacroCall) : String :=
-  -- documented: "Assert the creation of a symlink. If the symlink exists no change is made"
-  let (b, s') := match m with
-    | .symlink l _ => if pIsLink env s l then (true, s) else macroSpec env s m
-    -- nothing to remove: the postcondition holds already
-    | .remove p => if resolvable env s p && !pExists env s p then (true, s) else macroSpec env s m
-    | _ => macroSpec env s m
+  let (b, s') := macroSpec env s m
   (if b then "ok pass" else "ok panic") ++ " ## " ++
     (if b || isChecking m then absDump (Rivia.Spec.absS s') else "*")
 
